@@ -92,11 +92,20 @@ TruncCases ==
 \* equals evaluating exactly these bytes as a string
 OddFile == FileRec("odd", "a$r$\nb$r$c$e$ {{ 1 }}$r$\n$r$\n{{ \"x$r$\ny\".len() }}|$z$|$u$", "")
 BomFile == FileRec("bom", "$b$first {{ 2 }}$r$\n", "")
-BaseCase == {[files |-> SetToSeq({FileRec(m, Cat(GoodFiles[m]), "") : m \in DOMAIN GoodFiles} \cup {OddFile, BomFile}), cfg |-> [dir |-> "t", ext |-> ".tw"],
-              load |-> [ok |-> TRUE, names |-> SetToSeq(GoodNames \cup {"odd", "bom"})],
+\* files that fail: at run time (they still load), and - outside the set of templates - at parse time; the error of
+\* EvaluateFile is the error of EvaluateString on the content
+RtFail == FileRec("rtfail", "x\n{{ 1 / 0 }}", "")
+OutsideFiles == {[path |-> "t/cut.txt", src |-> "a\n@if(true)\nnever closed", kind |-> ""], [path |-> "t/illegal.txt", src |-> "a\n\n{{ 1 ~ 2 }}", kind |-> ""],
+                 [path |-> "t/undef.txt", src |-> "{{ zz }}", kind |-> ""]}
+BaseCase == {[files |-> SetToSeq({FileRec(m, Cat(GoodFiles[m]), "") : m \in DOMAIN GoodFiles} \cup {OddFile, BomFile, RtFail} \cup OutsideFiles), cfg |-> [dir |-> "t", ext |-> ".tw"],
+              load |-> [ok |-> TRUE, names |-> SetToSeq(GoodNames \cup {"odd", "bom", "rtfail"})],
               ops |-> HomeOp([kind |-> "out", out |-> GoodOut]) \o
                       <<[op |-> "EvalFile", name |-> "odd", data |-> <<>>, expect |-> [kind |-> "any"]],
-                        [op |-> "EvalFile", name |-> "bom", data |-> <<>>, expect |-> [kind |-> "any"]]>> \o
+                        [op |-> "EvalFile", name |-> "bom", data |-> <<>>, expect |-> [kind |-> "any"]],
+                        [op |-> "EvalFile", name |-> "rtfail", data |-> <<>>, expect |-> [kind |-> "any"]],
+                        [op |-> "EvalFile", name |-> "/t/cut.txt", data |-> <<>>, expect |-> [kind |-> "any"]],
+                        [op |-> "EvalFile", name |-> "/t/illegal.txt", data |-> <<>>, expect |-> [kind |-> "any"]],
+                        [op |-> "EvalFile", name |-> "/t/undef.txt", data |-> <<>>, expect |-> [kind |-> "any"]]>> \o
                       <<[op |-> "String", name |-> "layouts/main", data |-> <<>>, expect |-> [kind |-> "err", why |-> "layouts are not renderable"]],
                         [op |-> "String", name |-> "about", data |-> <<>>, expect |-> [kind |-> "out", out |-> "plain 312"]],
                         [op |-> "EvalFile", name |-> "about", data |-> <<>>, expect |-> [kind |-> "any"]],
